@@ -257,6 +257,11 @@ func (b *Builder) flushChild() {
 		extraBytes := int(lenLen - 1)
 		if extraBytes != 0 {
 			child.add(make([]byte, extraBytes)...)
+			if child.err != nil {
+				// A fixed-size buffer has no room for the longer length encoding.
+				b.err = child.err
+				return
+			}
 			childStart := child.offset + child.pendingLenLen
 			copy(child.result[childStart+extraBytes:], child.result[childStart:])
 		}
